@@ -253,13 +253,13 @@ class DPMultiheadAttention(nn.Module):
 
             if attn_mask.dim() == 2:
                 attn_mask = attn_mask.unsqueeze(0)
-                if list(attn_mask.size()) != [1, query.size(0), key.size(0)]:
+                if list(attn_mask.size()) != [1, q.size(0), k.size(0)]:
                     raise ValueError("The size of the 2D attn_mask is not correct.")
             elif attn_mask.dim() == 3:
                 if list(attn_mask.size()) != [
                     bsz * self.num_heads,
-                    query.size(0),
-                    key.size(0),
+                    q.size(0),
+                    k.size(0),
                 ]:
                     raise ValueError("The size of the 3D attn_mask is not correct.")
             else:
